@@ -20,7 +20,8 @@
               reaches its (single) suspension point; plain callables and coroutines that do not suspend
               finish here.
     phase 2   the suspended ones are resumed in the same order and finish.
-    result    the first exception *in time order* (phase 1 before phase 2) if any — the other
+    result    the exception of the first gather task to complete with one (phase 1 before phase 2;
+              see `firstExc`) if any — the other
               callables still run to completion, `gather` does not cancel them — else the list of values.
 
   The two-phase reading is exact when no callback of a multi-callback stage awaits a trigger itself
@@ -31,8 +32,17 @@
   `cancel_running_transitions` and the `CancelledError` clause of `process_context` are no-ops in
   this regime (the only task registered for the model is the current context); they are C08's business.
 
-  Callback kinds (`Kinds`): 0 plain callable, 1 coroutine function that does not suspend,
-  ≥ 2 coroutine function that suspends once (after its own awaited triggers, before finishing).
+  Callback kinds (`Kinds`): 0 plain callable answering directly, 1 coroutine function that does not
+  suspend, ≥ 2 a callable whose result is awaited and finishes one loop turn after its start:
+    2  coroutine function that suspends once (after its own awaited triggers, before finishing);
+    3  PLAIN callable handing back an already scheduled `asyncio.Task` (its body runs when the loop
+       gets to it);
+    4  PLAIN callable handing back a bare `Future` that a later loop callback resolves;
+    5  PLAIN callable handing back an object with `__await__` whose body suspends once.
+  `AsyncMachine.callback` and `AsyncCondition.check` recognise all of 1–5 by `inspect.isawaitable(res)`
+  and await them; for the engine the kinds ≥ 2 are indistinguishable in C07's regime (each is queued on
+  the loop at the moment it is started, so they finish in start order after the stage's last start) —
+  which is exactly what the model tie checks against the real classes for every one of them.
 -/
 import Model.Core
 
@@ -54,6 +64,9 @@ structure Entry where
   cb : Nat
   out : Out
   pending : Bool
+  /-- kinds 3 (Task) and 4 (Future): the callable's own gather task completes one loop turn after the
+  body has finished (it has to be woken by the Task / Future it awaits) -/
+  late : Bool
   target : Option Bool
   deriving Repr, Inhabited
 
@@ -79,9 +92,9 @@ def start (sub : Sub) (sc : Script) (kd : Kinds) (x : Ctx) (j : Job) (s : St) : 
   let s2 := s1.emit (.call j.slot j.cb x.model x.tag (s1.stateOf x.model))
   match runCmds sub act.cmds s2 with
   | .ok _ s3 =>
-    if 2 ≤ kd j.cb then some (⟨j.cb, act.out, true, j.target⟩, s3)
-    else some (⟨j.cb, act.out, false, j.target⟩, s3.emit (.done j.cb act.out))
-  | .err e s3 => some (⟨j.cb, .raise e, false, j.target⟩, s3.emit (.done j.cb (.raise e)))
+    if 2 ≤ kd j.cb then some (⟨j.cb, act.out, true, kd j.cb == 3 || kd j.cb == 4, j.target⟩, s3)
+    else some (⟨j.cb, act.out, false, false, j.target⟩, s3.emit (.done j.cb act.out))
+  | .err e s3 => some (⟨j.cb, .raise e, false, false, j.target⟩, s3.emit (.done j.cb (.raise e)))
   | .oof => none
 
 /-- phase 1 of `gather`: start every callable in list order -/
@@ -100,11 +113,16 @@ def finishAll : List Entry → St → St
   | [], s => s
   | e :: es, s => finishAll es (if e.pending then s.emit (.done e.cb e.out) else s)
 
-/-- the exception `gather` propagates: the first one raised in time order -/
+/-- the exception `gather` propagates: that of the first of its tasks to complete with one — the
+callables that finished in phase 1, then the suspended coroutines (their task completes in the turn
+they are resumed), then the callables awaiting a Task / Future (one turn later), each group in order -/
 def firstExc (es : List Entry) : Option Exc :=
   match (es.filter fun e => !e.pending).findSome? Entry.exc? with
   | some x => some x
-  | none => (es.filter fun e => e.pending).findSome? Entry.exc?
+  | none =>
+    match (es.filter fun e => e.pending && !e.late).findSome? Entry.exc? with
+    | some x => some x
+    | none => (es.filter fun e => e.pending && e.late).findSome? Entry.exc?
 
 /-- `AsyncMachine.await_all` = `asyncio.gather(*[func() for func in callables])` -/
 def gather (sub : Sub) (sc : Script) (kd : Kinds) (x : Ctx) (js : List Job) (s : St) : R (List Bool) :=
